@@ -275,7 +275,7 @@ def classical(E):
 
 def harnesses(tier):
     q = tier == "quick"
-    T = 600 if q else 900
+    T = 600 if q else 1500
     return [
         H("circuits", circuits, dict(layers=1 if q else 2), FUNCS,
           covers=['symbol', 'expr', 'other-param', 'pairs', 'number',
